@@ -12,7 +12,8 @@ From Coq Require Import NArith.
 From RV Require Import Ingress.IngressModel Rib.RibModel Bmp.BmpModel Bmp.BmpStreamModel Bmp.BmpStreamProofs.
 From RV Require Import Bmp.BmpPageModel Bmp.BmpPageProofs.
 From RV Require Import Bgp.BgpSessionModel Bgp.BgpRxModel Bgp.BgpRxProofs Pipe.PipeRaw Mrt.MrtModel Mrt.MrtProofs.
-From RV Require Bgp.BgpModel.
+From RV Require Import Bmp.BmpWireAbs Bmp.BmpWireAbsProofs.
+From RV Require Bgp.BgpModel Bmp.BmpWire.
 Local Open Scope N_scope.
 
 (* No stream of read events makes the connection task panic. *)
@@ -85,6 +86,55 @@ Example C06_example :
   exists s, run_stream parse_w true TEof 1 evs =
     Done (EndErr KConnectionReset) [EByte 7] s [GUpd (UWithdrawBulk [3]); GEos 2].
 Proof. vm_compute. eexists. reflexivity. Qed.
+
+(* ---- the same for REAL octet streams: the parser is no longer an argument ----
+   [wire_msg] (Bmp/BmpWireAbs.v) = the decoder of the proved RFC 7854 codec (Bmp/BmpWire.v, aligned with what
+   routecore accepts; C05_wire_roundtrip) followed by the state machine's reading of the decoded frame. With it
+   put in for [parse] the theorems above speak about the octets a router sends, cut and interrupted anywhere. *)
+Theorem C06_wire_no_panic : forall tl rid evs s p r s',
+  run_from wire_msg true tl rid evs s <> Panic p r s'.
+Proof. exact (run_from_no_panic wire_msg). Qed.
+Print Assumptions C06_wire_no_panic.
+
+Theorem C06_wire_progress : forall fixed tl rid evs s,
+  run_from wire_msg fixed tl rid evs s <> OutOfFuel.
+Proof. exact (run_from_progress wire_msg). Qed.
+Print Assumptions C06_wire_progress.
+
+Theorem C06_wire_always_ends_in_cleanup : forall tl rid evs s,
+  exists e rest s' out, run_from wire_msg true tl rid evs s = Done e rest s' out.
+Proof. exact (run_from_total wire_msg). Qed.
+Print Assumptions C06_wire_always_ends_in_cleanup.
+
+Theorem C06_wire_session_ends_only_for_cause : forall fixed tl rid evs s e rest s' out,
+  run_from wire_msg fixed tl rid evs s = Done e rest s' out -> end_reason_ok tl evs e rest.
+Proof. exact (run_from_end_reason wire_msg). Qed.
+Print Assumptions C06_wire_session_ends_only_for_cause.
+
+(* the frame the loop hands to the parser is the encoded message, whatever follows it in the script ... *)
+Theorem C06_wire_frame_is_the_encoding : forall m evs,
+  bmp_read (map EByte (BmpWire.encode m) ++ evs) = RdFrame (BmpWire.encode m) evs.
+Proof. exact bmp_read_encoded. Qed.
+Print Assumptions C06_wire_frame_is_the_encoding.
+
+(* ... so a router that sends the encodings of ANY well-formed messages and closes the connection gets every one
+   of them to the state machine, in order - nothing is refused, skipped or re-framed -, and the session ends at the
+   end of file in the cleanup *)
+Theorem C06_wire_encoded_stream_reaches_state_machine : forall fixed rid ms s, List.forallb BmpWire.wf ms = true ->
+  run_from wire_msg fixed TEof rid (map EByte (concat (map BmpWire.encode ms))) s =
+  Done EndEof [] (msgs_run rid s (map abstract ms)) (cleanup rid (msgs_run rid s (map abstract ms))).
+Proof. exact run_from_encoded_stream. Qed.
+Print Assumptions C06_wire_encoded_stream_reaches_state_machine.
+
+(* non-vacuity: the nine messages of C05_wire_example as one octet stream cut by a connection reset inside the
+   seventh: the session ends at the reset; the peer that came up with the second message went down with the sixth *)
+Example C06_wire_example :
+  let octets := concat (map BmpWire.encode ex_session) in
+  let cut := (length (concat (map BmpWire.encode (take 6 ex_session))) + 20)%nat in
+  exists s out, run_stream wire_msg true TEof 1 (map EByte (take cut octets) ++ [EErr KConnectionReset; EByte 7]) =
+    Done (EndErr KConnectionReset) [EByte 7] s out /\
+    cleanup_ok (conn_init 1).1 out = true /\ length out = 4%nat /\ n_up (sm_peers (s_sm s)) = 0.
+Proof. vm_compute. do 2 eexists. repeat split; reflexivity. Qed.
 
 (* ---- the HTTP API keeps working: the router's page after any stream ----
    Model: Bmp/BmpPageModel.v. [ring_of d h] is ParseErrorsRingBuffer after the
